@@ -45,7 +45,7 @@ FLOORS = {'quick': {'histories': 530, 'serve_histories': 390, 'seed_histories': 
                     'boundary_dont_care': 1450, 'threshold_changes': 620, 'seed_stale_refetched': 1240,
                     'seed_fresh_untouched': 6900, 'seed_failed_refresh_kept_old': 95, 'stale_served_on_error': 55,
                     'linked_histories': 18, 'linked_tile_judgements': 170, 'cache_source_histories': 20, 'two_source_histories': 20,
-                    'stored_timestamp_of_new_tile_checked': 2000},
+                    'stored_timestamp_of_new_tile_checked': 2000, 'seed_tiles_where_cache_rule_says_otherwise': 400},
           'thorough': {'histories': 8500, 'serve_histories': 6500, 'seed_histories': 1900, 'seed_tasks': 4500,
                        'stale_refetched': 45000, 'fresh_served_from_cache': 137000, 'failed_refresh_kept_old': 15800,
                        'refreshed_after_recovery': 6000, 'boundary_dont_care': 22000, 'threshold_changes': 10700,
@@ -236,7 +236,7 @@ def gen_spec(rng, mode):
         spec['levels'] = rng.choice([[1], [2], [1, 2], {'from': 1, 'to': 2}, [0, 2], {'from': 2}, [0, 1, 2]])
         spec['coverage'] = rng.random() < 0.4
         spec['cache_rule'] = None
-        if rng.random() < 0.12:
+        if rng.random() < 0.25:
             spec['cache_rule'] = gen_rule(rng, allow_future=False)
         spec['seed_fail'] = rng.random() < 0.3
         spec['fill'] = rng.choice([1.0, 1.0, 0.8, 0.6])
@@ -650,6 +650,8 @@ class Judge(object):
         s = self.spec
         m = {'mode': s['mode'], 'backend': s['backend'].split('_')[0], 'meta': s['shape'], 'src': s['src'],
              'rule': self.w.rule['kind'] if self.w.rule else None}
+        if s['mode'] == 'seed' and s.get('cache_rule'):
+            m['cache_has_own_rule'] = True
         m.update(kw)
         return m
 
@@ -1138,12 +1140,11 @@ def run_seed(run, case, spec, sops, d):
         # the seed rule's threshold is computed when the task is built: bracket it
         pre = {}
         for c in model:
+            # the rule of the seed task is the one in force while it runs, whatever the cache is served with
             s_seed = state_of(c, seed_rule)
-            if cache_rule:
-                s_cache = state_of(c, cache_rule)
-                pre[c] = s_seed if s_seed == s_cache else 'disagree'
-            else:
-                pre[c] = s_seed
+            pre[c] = s_seed
+            if cache_rule and state_of(c, cache_rule) != s_seed:
+                run.hit('seed_tiles_where_cache_rule_says_otherwise')
         w.up.reset_log()
         exc = do_seed(w, spec['skip_uncached'])
         if not quiesce():
